@@ -155,6 +155,15 @@ def o93(ctx):
     balls = [e for e in ev if e.kind == "call" and e.name == "method:query_ball_point"]
     drops = [e for e in ev if e.kind == "call" and e.name == "DataFrame.drop"]
     cats = [e for e in ev if e.kind == "call" and e.name == "pandas.concat"]
+    # the radius test is inclusive (d <= r, as query_ball_point does); a nearest-neighbour query bounded by distance_upper_bound is strict
+    strict = [e for e in ev if e.kind == "call" and e.name == "method:query" and "distance_upper_bound" in e.kwargs
+              and tm.has_sym(to_term(e.kwargs["distance_upper_bound"]), "radius")]
+    ctx.count(1)
+    if strict:
+        ctx.finding(q, strict[0].node, "the neighbours are searched with query(..., distance_upper_bound=radius), which only returns points "
+                    "strictly closer than the radius: a particle exactly at the radius from a point is kept (within the radius means d <= r)",
+                    strict[0].node, m)
+        return
     if len(loops) != 2 or len(trees) != 1 or len(balls) != 1 or len(drops) != 1 or len(cats) != 1:
         raise Unsupported("clean_by_distance_to_points structure not recognised", fn)
     f_el = to_term(loops[0].extra["elem"])
